@@ -7,7 +7,7 @@ FIX = {"FixWake": True, "FixAttach": True, "FixCount": True, "FixJoin": True}
 
 PKTS = {"SKN": ["sps", "key", "non"], "KN": ["key", "non"], "K": ["key"], "SPKNK": ["sps", "pps", "key", "non", "key"],
         "KAN": ["key", "aud", "non"], "KNKN": ["key", "non", "key", "non"], "KNNKNNK": ["key", "non", "non", "key", "non", "non", "key"],
-        "VSPKN": ["vps", "sps", "pps", "key", "non"], "MVAKN": ["meta", "vsh", "ash", "key", "non"],
+        "VSPKN": ["vps", "sps", "pps", "key", "non"], "K4": ["key", "non", "non"] * 4 + ["key"], "MVAKN": ["meta", "vsh", "ash", "key", "non"],
         "MVKAK": ["meta", "vsh", "key", "aud", "key"], "VKNA": ["vsh", "key", "non", "aud"], "VKK": ["vsh", "key", "key"]}
 
 def S(name, cons, pkts, cachegop=True, maxq=1000, stoppers=(), closer=False, panics=(), media="h264", closepanics=False, replace=False, simonly=False):
@@ -36,6 +36,7 @@ SCENARIOS = {s["name"]: s for s in [
     S("backlogclose1", ["c1"], "KNNKNNK", maxq=1, closer=True),
     S("backlogstop1", ["c1"], "KNNKNNK", maxq=1, stoppers=["c1"]),
     S("backlog2", ["c1", "c2"], "KNNKNNK", maxq=1, simonly=True),
+    S("backlogjoin1", ["c1"], "K4", maxq=1, simonly=True),
     S("panicclose2", ["c1", "c2"], "KN", panics=["c1"], closepanics=True),
     S("replace2", ["c1", "c2"], "K", closer=True, replace=True),
 ]}
